@@ -547,8 +547,9 @@ class EvalFunc:
                         pyscript_service_factory(func_name, self),
                         dec_kwargs.get("supports_response", SupportsResponse.NONE),
                     )
-                    async_set_service_schema(Function.hass, domain, name, service_desc)
+                    # (recorded first: if the description is refused the name is released again)
                     self.trigger_service.add(srv_name)
+                    async_set_service_schema(Function.hass, domain, name, service_desc)
                 continue
 
             if dec_name == "webhook_trigger" and "methods" in dec_kwargs:
